@@ -48,6 +48,10 @@ type Case struct {
 	// to instance 1 at ConditionalLevel (an audit trail fed from inside a destination): instance 1
 	// starts holding lines while instance 0 is in the middle of its replay
 	Echo bool `json:"echo_into_second_instance,omitempty"`
+	// ClosableDest: the destination is an io.Closer that honours Close (a file): nothing in the
+	// history closes it, so every line that should arrive after a TriggerLevelWriter was closed
+	// (through a new writer on the same destination, or the same one) still arrives
+	ClosableDest bool `json:"closable_destination,omitempty"`
 }
 
 type out struct {
@@ -62,14 +66,29 @@ type dest struct {
 	failAt map[int]bool
 	odd    bool
 	echo   func(line []byte)
+	closed bool
 }
 
 var errDest = errors.New("destination refused the line")
 
 func (d *dest) Write(p []byte) (int, error) { return d.take(-100, p) }
 
+// closeIt is only reachable when the case wraps the destination in closableDest / closableLDest.
+func (d *dest) closeIt() error { d.closed = true; return nil }
+
+type closableDest struct{ *dest }
+
+func (c closableDest) Close() error { return c.dest.closeIt() }
+
+type closableLDest struct{ ldest }
+
+func (c closableLDest) Close() error { return c.dest.closeIt() }
+
 func (d *dest) take(l int, p []byte) (int, error) {
 	d.calls++
+	if d.closed {
+		return 0, os.ErrClosed
+	}
 	if d.failAt[d.calls-1] {
 		return 0, errDest
 	}
@@ -106,6 +125,12 @@ func run(c *Case) (string, bool) {
 		var w io.Writer = ldest{in.d}
 		if c.Plain {
 			w = in.d
+		}
+		if c.ClosableDest {
+			w = closableLDest{ldest{in.d}}
+			if c.Plain {
+				w = closableDest{in.d}
+			}
 		}
 		in.tw = &zerolog.TriggerLevelWriter{Writer: w, ConditionalLevel: zerolog.Level(c.Cond), TriggerLevel: zerolog.Level(c.Trig)}
 	}
@@ -405,6 +430,7 @@ func TestRapid(t *testing.T) {
 		}
 		c.OddCounts = rapid.IntRange(0, 4).Draw(rt, "odd") == 0
 		c.Echo = rapid.IntRange(0, 3).Draw(rt, "echo") == 0
+		c.ClosableDest = rapid.IntRange(0, 2).Draw(rt, "closable") == 0
 		n := rapid.IntRange(1, 40).Draw(rt, "nops")
 		ninst := rapid.SampledFrom([]int{1, 1, 2, 3}).Draw(rt, "ninst")
 		if c.Echo && ninst == 1 {
